@@ -14,25 +14,24 @@ use std::collections::{BTreeMap, BTreeSet};
 /// '*' = any possibly empty run of characters, '?' = exactly one character,
 /// everything else itself; whole-text match; case-sensitive; over chars.
 pub fn glob(mask: &str, text: &str) -> bool {
+    // textbook dynamic programme: ok[i][j] = mask[..i] matches text[..j]
     let m: Vec<char> = mask.chars().collect();
     let t: Vec<char> = text.chars().collect();
-    fn go(m: &[char], t: &[char]) -> bool {
-        match m.first() {
-            None => t.is_empty(),
-            Some('*') => {
-                // collapse runs of '*'
-                let mut k = 0;
-                while k < m.len() && m[k] == '*' {
-                    k += 1;
-                }
-                let rest = &m[k..];
-                (0..=t.len()).any(|i| go(rest, &t[i..]))
-            }
-            Some('?') => !t.is_empty() && go(&m[1..], &t[1..]),
-            Some(c) => !t.is_empty() && t[0] == *c && go(&m[1..], &t[1..]),
+    let mut ok = vec![vec![false; t.len() + 1]; m.len() + 1];
+    ok[0][0] = true;
+    for i in 1..=m.len() {
+        if m[i - 1] == '*' {
+            ok[i][0] = ok[i - 1][0];
+        }
+        for j in 1..=t.len() {
+            ok[i][j] = match m[i - 1] {
+                '*' => ok[i - 1][j] || ok[i][j - 1],
+                '?' => ok[i - 1][j - 1],
+                c => ok[i - 1][j - 1] && c == t[j - 1],
+            };
         }
     }
-    go(&m, &t)
+    ok[m.len()][t.len()]
 }
 
 /// nick -> nick!*@*, nick@host -> nick!*@host, nick!user -> nick!user@*
@@ -847,7 +846,9 @@ pub fn step(m: &M, cfg: &SpecCfg, actor: &Actor, line: &str) -> Option<Exp> {
                     if ch.members.contains_key(&me) {
                         // already a member: outside the statement; nothing may change,
                         // replies unchecked
-                        e.actor.push(num_any("405").may());
+                        for code in ["405", "471", "473", "474", "475", "443"] {
+                            e.actor.push(num_any(code).may());
+                        }
                         continue;
                     }
                     let key_ok = match &ch.key {
@@ -1379,6 +1380,36 @@ pub fn step(m: &M, cfg: &SpecCfg, actor: &Actor, line: &str) -> Option<Exp> {
             }
             Some(e)
         }
+        "LIST" => {
+            if p.len() > 1 {
+                return None;
+            }
+            e.actor.push(num_any("321").may());
+            let wanted: Option<Vec<&str>> = p.get(0).map(|l| l.split(',').collect());
+            for (chn, ch) in &m.chans {
+                if ch.fs {
+                    // secret channels: C12's business; tolerate either for members
+                    if ch.members.contains_key(&me) {
+                        e.actor.push(num("322", &[chn]).may());
+                    }
+                    continue;
+                }
+                if let Some(w) = &wanted {
+                    if !w.contains(&chn.as_str()) {
+                        continue;
+                    }
+                }
+                let topic = ch.topic.as_ref().map(|t| t.0.clone()).unwrap_or_default();
+                e.actor.push(ExpLine {
+                    prefix: None,
+                    cmd: "322".into(),
+                    params: vec![P::Is(chn.clone()), P::Is(ch.members.len().to_string()), P::Is(topic)],
+                    req: Req::Must,
+                });
+            }
+            e.actor.push(num_any("323"));
+            Some(e)
+        }
         "LUSERS" => {
             let total = m.users.len();
             let inv = m.users.values().filter(|u| u.i).count();
@@ -1562,6 +1593,12 @@ fn step_mode_channel(m: &M, me: &str, src: &str, p: &[String], mut e: Exp) -> Op
         };
         if !allowed {
             refused_rank = true;
+            if let (true, Some(t)) = (matches!(c.letter, 'q' | 'a' | 'o' | 'h' | 'v'), c.arg.as_ref()) {
+                if !nc.members.contains_key(t) {
+                    e.actor.push(num("441", &[t, chn]).may());
+                    e.actor.push(num("401", &[t]).may());
+                }
+            }
             continue;
         }
         match c.letter {
